@@ -244,11 +244,20 @@ def panic_sites(prog, chk, reach):
             w = D.len_fraction_guard(body, s.bb, s.term)
             if w:
                 why = "D2 " + w
-        if why is None and s.kind == "index" and "str" not in s.detail.split(" as ")[0]:
+        is_str_index = s.detail.startswith(("<str as", "<std::string::String as", "<&str as", "<&std::string::String as"))
+        if why is None and s.kind == "index" and not is_str_index:
             w = D.position_index_guard(body, s.bb, s.term)
             if w:
                 why = "D4 " + w
-        if why is None and s.kind == "index" and "str" in s.detail.split(" as ")[0]:
+        if why is None and s.kind == "vec-insert":
+            w = D.insert_slot_guard(body, s.bb, s.term)
+            if w:
+                why = "D4 " + w
+        if why is None and s.kind in ("index", "vec-remove") and body.kind == "Closure":
+            w = D.closure_param_index_guard(prog, body, s.bb, s.term, s.kind)
+            if w:
+                why = "D4 " + w
+        if why is None and s.kind == "index" and is_str_index:
             w = D.str_index_guard(body, s.bb, s.term)
             if w:
                 why = "D3 " + w
